@@ -17,4 +17,4 @@ fi
 [ "$1" = "--" ] && shift
 git diff --stat | tail -3
 cd /verif
-VP_REPO=$D/repo "$@"
+VP_REPO=$D/repo VP_EVIDENCE_DIR=$D/evidence VP_REPLAY_DIR=$D/replay "$@"
